@@ -271,6 +271,15 @@ pub fn directed() -> Vec<Input> {
     add("recursive inline function", "char a, b;\ninline char f(char n) { if (n == 0) return 0; return f(n - 1) + 1; }\nvoid main() { a = f(b); }\n");
     add("mutually recursive inline functions", "char a;\ninline void g();\ninline void f() { if (a) g(); }\ninline void g() { a--; f(); }\nvoid main() { f(); }\n");
     add("variable named like a literal table", "char cctmp0;\nchar *p, *q;\nvoid main() { p = \"ab\"; q = \"cd\"; }\n");
+    add("multi-byte character constants on a statement line", "char a;\nvoid main() {\n a = '€' + '€';\n}\n");
+    add("multi-byte characters in a comment after a statement", "char a;\nvoid main() {\n a = 1; /* ééééé€€€ */ a = 2;\n a = 3; // €\n}\n");
+    add("negative size of inline assembly", "char a;\nvoid main() { a = 1; asm(\"NOP\", -1); }\n");
+    add("huge size of inline assembly", "char a;\nvoid main() { a = 1; asm(\"NOP\", 2147483647); asm(\"NOP\", 2147483647); asm(\"NOP\", 2); }\n");
+    add("store of a void call", "char a;\nvoid f() { a = 1; }\nvoid main() { store(f()); }\n");
+    add("load of a void call", "char a;\nvoid f() { a = 1; }\nvoid main() { load(f()); }\n");
+    add("strobe with a subscript", "char * const PF = 0x0d;\nvoid main() { strobe(PF[1]); strobe(PF[X]); }\n");
+    add("constant shift overflow", "const char t[2] = { 0x40000000 << 1, 1 << 31 };\nchar a;\nvoid main() { a = 0x40000000 << 2; }\n");
+    add("csleep with a far DUMMY", "char * const DUMMY = 0x1000;\nvoid main() { csleep(3); csleep(5); csleep(9); csleep(10); }\n");
     add("function named like a literal table", "void cctmp0() { }\nchar *p;\nvoid main() { p = \"ab\"; cctmp0(); }\n");
     add("local named like a mangled local", "char g;\nvoid main() { { char i; char i_0; i = 1; i_0 = 2; } { char i; i = 3; } g = 1; }\n");
     add("unknown directive in a skipped region", "#if 0\n#pragma once\n#unknown\n#endif\nvoid main() { }\n");
